@@ -27,12 +27,14 @@ PROP = {'gen': [],
                'theorem for selectors); for every represented shape offsets are in bounds and injective (the obligation of the unsafe '
                "iter_mut), get/iter/fill_with/map touch exactly the window's cells, each once, row-major; iter_mut hands out exactly "
                'those cells in that order; fill_with leaves every other element unchanged; insert writes only window cells (for '
-               'positions whose usize index arithmetic does not overflow: ..._upto_usize; beyond that the debug build panics before '
-               'writing); is_empty says exactly "no cell" for every chain-built shape. Model tied to the code by differential runs '
+               'positions whose row-major index is below usize::MAX: ..._upto_usize; from there on - no window has such a position - '
+               'only the frame condition is checked per case: a panic or no write outside the window); is_empty says exactly "no cell" '
+               'for every chain-built shape. Roots up to i64::MAX per axis. Model tied to the code by differential runs '
                'observing shapes, reads (get, get_mut, iter, nth, position, with_position), handed-out addresses and the whole backing '
                'vector after each mutation (fill, fill_with, clear, set, insert), through every view kind of the API.',
  'level_note': 'Trusted: Coq kernel; hand-written model Surface/Shape.v validated by correspondence; the memory model of rustc is not '
-               'modelled (the unsafe block is covered through the arithmetic obligation: distinct in-bounds offsets). No axioms.',
+               'modelled (the unsafe block is covered through the arithmetic obligation: distinct in-bounds offsets). Defect found and '
+               'fixed: SurfaceMut::set checked its position in debug builds only (fix 1927cbc). No open known finding. No axioms.',
  'technique': 'Coq proof (representation invariant by induction over the view chain; nia/lia; NoDup of handed-out offsets) + '
               'model/implementation correspondence',
  'design_ref': 'DESIGN.md 6.7',
